@@ -12,6 +12,7 @@ import (
 	pbbstream "github.com/streamingfast/bstream/pb/sf/bstream/v1"
 	pbsubstreamsrpc "github.com/streamingfast/substreams/pb/sf/substreams/rpc/v2"
 	"github.com/streamingfast/substreams/pipeline"
+	"github.com/streamingfast/substreams/service"
 
 	"verif/harness/fw"
 	"verif/harness/gen"
@@ -165,8 +166,14 @@ func runC03(c *fw.Case) {
 	}
 
 	feed := func(ctx context.Context, h bstream.Handler, from, stopNum uint64, cursor string) error {
-		pipe, ok := h.(*pipeline.Pipeline)
-		if !ok {
+		var pipe *pipeline.Pipeline
+		switch hh := h.(type) {
+		case *pipeline.Pipeline:
+			pipe = hh
+		case *service.LiveBackFiller: // production mode: the pipeline sits behind the live back-filler
+			pipe, _ = hh.NextHandler.(*pipeline.Pipeline)
+		}
+		if pipe == nil {
 			return fmt.Errorf("harness: unexpected handler %T", h)
 		}
 		top := func() (uint64, string) {
@@ -186,7 +193,7 @@ func runC03(c *fw.Case) {
 		}
 		wrap := bstream.HandlerFunc(func(blk *pbbstream.Block, obj interface{}) error {
 			step := obj.(bstream.Stepable).Step()
-			err := pipe.ProcessBlock(blk, obj)
+			err := h.ProcessBlock(blk, obj)
 			if err != nil && err != io.EOF {
 				return err
 			}
@@ -248,9 +255,19 @@ func runC03(c *fw.Case) {
 		return fmt.Errorf("harness: fork tree exhausted before the stop block")
 	}
 
-	spec := sim.RequestSpec{Modules: s.pkg.Modules, Output: out, Prod: false, Start: int64(start), Stop: stop, Final: base, Workers: 1 + c.R.Intn(3), OrderSeed: 1 + c.R.Int63n(1<<40), LinearFeed: feed}
+	prodMode := c.R.Intn(4) == 0
+	if prodMode { // requests of the recorded known-finding shape (C05/stage-index-shift) never end: use development mode for those
+		probe := sim.RequestSpec{Modules: s.pkg.Modules, Output: out, Prod: true, Start: int64(start), Stop: stop, Final: base}
+		if pl, err := s.cl.PlanFor(probe); err != nil || pl.KnownHangShape() {
+			prodMode = false
+		}
+	}
+	spec := sim.RequestSpec{Modules: s.pkg.Modules, Output: out, Prod: prodMode, Start: int64(start), Stop: stop, Final: base, Workers: 1 + c.R.Intn(3), OrderSeed: 1 + c.R.Int63n(1<<40), LinearFeed: feed}
 	res := s.cl.Run(spec)
 	c.Count("histories", 1)
+	if prodMode {
+		c.Count("histories_in_production_mode", 1)
+	}
 	c.Count("steps", int64(len(obs.steps)))
 	if res.Stuck {
 		c.Violation("C03/liveness/request-stuck", "request made no progress for 45 s with no job in flight", wit(nil))
@@ -379,15 +396,32 @@ func runC03(c *fw.Case) {
 		chain = append(chain, sim.BlockID(n))
 	}
 	chain = append(chain, tree.Path(finalTop)...)
-	if len(client) != len(chain) {
-		c.Violation("C03/client/final-chain-differs", fmt.Sprintf("client ends with %d blocks %v, canonical chain has %d blocks %v", len(client), heldIDs(client, func(h held) string { return h.id }), len(chain), chain), wit(nil))
+	// in production mode a back-filled block (below the hand-off) whose reference output is empty may be omitted (C01 rule)
+	ci := 0
+	for _, id := range chain {
+		var num uint64
+		if n := tree.Node(id); n != nil {
+			num = n.Num
+		} else {
+			fmt.Sscanf(id, "b%d", &num)
+		}
+		if ci < len(client) && client[ci].id == id {
+			if !bytes.Equal(client[ci].payload, ref.Payload[id]) {
+				c.Violation("C03/client/final-chain-differs", fmt.Sprintf("client holds %s with payload %q, the canonical chain's reference payload is %q", id, client[ci].payload, ref.Payload[id]), wit(nil))
+				return
+			}
+			ci++
+			continue
+		}
+		if prodMode && sess != nil && num < sess.LinearHandoffBlock && len(ref.Payload[id]) == 0 {
+			continue
+		}
+		c.Violation("C03/client/final-chain-differs", fmt.Sprintf("client ends with blocks %v, canonical chain is %v: block %s is missing or out of place", heldIDs(client, func(h held) string { return h.id }), chain, id), wit(nil))
 		return
 	}
-	for i, id := range chain {
-		if client[i].id != id || !bytes.Equal(client[i].payload, ref.Payload[id]) {
-			c.Violation("C03/client/final-chain-differs", fmt.Sprintf("position %d: client holds %s %q, canonical chain has %s %q", i, client[i].id, client[i].payload, id, ref.Payload[id]), wit(nil))
-			return
-		}
+	if ci != len(client) {
+		c.Violation("C03/client/final-chain-differs", fmt.Sprintf("client ends with blocks %v which are not all on the canonical chain %v", heldIDs(client, func(h held) string { return h.id }), chain), wit(nil))
+		return
 	}
 	c.Count("client_blocks_compared", int64(len(chain)))
 	c.Count("undo_signals", int64(undos))
